@@ -167,6 +167,12 @@ pub fn check_c05_like(case: &CliCase, cx: &mut CaseCtx, check_rejects_content: b
         }
     }
     for p in rejects.keys() {
+        // a reject left by an earlier push stays as it is unless this push writes a new one
+        if let Some(stale) = spec.tree.files.get(p) {
+            if !expected_rej.iter().any(|(e, _, _)| e == p) && rejects[p].0 == stale.data.0 {
+                continue;
+            }
+        }
         if !expected_rej.iter().any(|(e, _, _)| e == p) {
             return Verdict::Fail(format!("unexpected reject file {:?} (expected {:?})", p, expected_rej.iter().map(|x| &x.0).collect::<Vec<_>>()));
         }
@@ -231,6 +237,26 @@ pub fn build_cli_case(ch: &mut Chooser, cx: &mut CaseCtx, fail_chance: u32, with
         opts.goal = gen_goal(ch, &ws);
     }
     let prior = if ch.chance(1, 4) { ch.below(ws.applicable() + 1) } else { 0 };
+    let mut ws = ws;
+    // reject files left behind by an earlier failed push (longer than the new ones, not linked anywhere): they must
+    // be replaced, not overwritten from the start
+    if prior == 0 && ch.chance(1, 3) {
+        if let Some(j) = ws.fail_at {
+            let dir_always = |p: &str| match p.rfind('/') {
+                None => true,
+                Some(i) => ws.states.iter().all(|st| st.files.keys().any(|q| q.starts_with(&p[..=i]))),
+            };
+            let targets: Vec<String> = ws.metas[j].ops.iter().filter(|o| !o.failing_hunks.is_empty() && dir_always(&o.target)).map(|o| o.target.clone()).collect();
+            for t in targets {
+                let mut junk = format!("--- {}\n+++ {}\n@@ -1,400 +1,400 @@\n", t, t).into_bytes();
+                for i in 0..400 {
+                    junk.extend_from_slice(format!(" stale line {} of a reject left by an earlier push\n", i).as_bytes());
+                }
+                ws.spec.tree.files.insert(format!("{}.rej", t), crate::ws::TFile { data: crate::bytes::B(junk), mode: 0o644 });
+                ws.feat.push("stale-reject-of-an-earlier-push".into());
+            }
+        }
+    }
     // a hunk that fails as "misordered" at fuzz 0 may find another place once context is trimmed
     if ws.metas.iter().any(|m| m.ops.iter().any(|o| o.fail_reason.as_deref() == Some("misordered"))) {
         opts.fuzz = None;
